@@ -101,3 +101,94 @@ pub mod vg {
 		crate::version_graph::map_shortcut(version)
 	}
 }
+
+#[path = "/repo/src/specialized_methods/mod.rs"]
+mod specialized_methods;
+
+pub mod sm {
+	//! wrappers around `/repo/src/specialized_methods/mod.rs` (added for C15)
+	use std::cell::RefCell;
+	use anyhow::{bail, Result};
+	use duke::tree::class::{ObjClassName, ObjClassNameSlice};
+	use duke::tree::field::{FieldDescriptorSlice, FieldNameAndDesc, FieldNameSlice};
+	use duke::tree::method::{MethodDescriptorSlice, MethodNameAndDesc, MethodNameSlice, MethodRefObj};
+	use dukebox::storage::Jar;
+	use quill::remapper::{ARemapper, BRemapper};
+	use quill::tree::mappings::Mappings;
+	use crate::specialized_methods::GetSpecializedMethods;
+	use crate::{Intermediary, Named, Official};
+
+	/// official -> intermediary
+	pub type Calamus = Mappings<2, (Official, Intermediary)>;
+	/// intermediary -> named
+	pub type NamedMappings = Mappings<2, (Intermediary, Named)>;
+
+	/// (class, name, descriptor)
+	pub type Ref = (String, String, String);
+
+	fn to_ref(r: &MethodRefObj) -> Ref {
+		(r.class.as_inner().to_string(), r.name.as_inner().to_string(), r.desc.as_inner().to_string())
+	}
+
+	/// the two maps of `SpecializedMethods`, in iteration order
+	#[derive(Clone, Debug, PartialEq, Eq)]
+	pub struct Pairs {
+		/// (bridge, specialized)
+		pub bridge_to_specialized: Vec<(Ref, Ref)>,
+		/// (specialized, bridge)
+		pub specialized_to_bridge: Vec<(Ref, Ref)>,
+	}
+
+	/// An identity remapper that records every `map_method_ref_obj` query: the only way to observe the
+	/// private field `specialized_to_bridge` is through `SpecializedMethods::remap`, which queries the
+	/// remapper with every key and value of both maps in order.
+	#[derive(Default)]
+	struct Recorder {
+		log: RefCell<Vec<MethodRefObj>>,
+	}
+
+	impl ARemapper for Recorder {
+		fn map_class_fail(&self, _class: &ObjClassNameSlice) -> Result<Option<ObjClassName>> {
+			Ok(None)
+		}
+	}
+
+	impl BRemapper for Recorder {
+		fn map_field_fail(&self, _owner: &ObjClassNameSlice, _name: &FieldNameSlice, _desc: &FieldDescriptorSlice) -> Result<Option<FieldNameAndDesc>> {
+			Ok(None)
+		}
+		fn map_method_fail(&self, _owner: &ObjClassNameSlice, _name: &MethodNameSlice, _desc: &MethodDescriptorSlice) -> Result<Option<MethodNameAndDesc>> {
+			Ok(None)
+		}
+		fn map_method_ref_obj(&self, method_ref: &MethodRefObj) -> Result<MethodRefObj> {
+			self.log.borrow_mut().push(method_ref.clone());
+			Ok(method_ref.clone())
+		}
+	}
+
+	/// `GetSpecializedMethods::get_specialized_methods(jar)`; `bridge_to_specialized` is read directly,
+	/// `specialized_to_bridge` through the queries `SpecializedMethods::remap` makes (see [`Recorder`]).
+	pub fn get_specialized_methods(jar: &impl Jar) -> Result<Pairs> {
+		let found = jar.get_specialized_methods()?;
+		let b2s: Vec<(Ref, Ref)> = found.bridge_to_specialized.iter().map(|(b, s)| (to_ref(b), to_ref(s))).collect();
+		let recorder = Recorder::default();
+		let _identity = found.remap(&recorder)?;
+		let log: Vec<Ref> = recorder.log.into_inner().iter().map(to_ref).collect();
+		let n = b2s.len() * 2;
+		if log.len() < n || (log.len() - n) % 2 != 0 {
+			bail!("shim: SpecializedMethods::remap made {} queries for {} bridge_to_specialized pairs", log.len(), b2s.len());
+		}
+		for (i, (b, s)) in b2s.iter().enumerate() {
+			if &log[2 * i] != b || &log[2 * i + 1] != s {
+				bail!("shim: SpecializedMethods::remap does not query bridge_to_specialized first and in order");
+			}
+		}
+		let s2b = log[n..].chunks(2).map(|c| (c[0].clone(), c[1].clone())).collect();
+		Ok(Pairs { bridge_to_specialized: b2s, specialized_to_bridge: s2b })
+	}
+
+	/// `add_specialized_methods_to_mappings(main_jar, calamus, libraries, mappings)`
+	pub fn add_specialized_methods_to_mappings<J: Jar, L: Jar>(main_jar: &J, calamus: &Calamus, libraries: &[L], mappings: &NamedMappings) -> Result<NamedMappings> {
+		crate::specialized_methods::add_specialized_methods_to_mappings(main_jar, calamus, libraries, mappings)
+	}
+}
